@@ -57,6 +57,61 @@ def script(graph=0):
 OPS = ["setup", "iterate", "iterate_n", "run", "sample", "finalize", "iterate_n0"]
 
 
+class OutFake(FakeLib):
+    """stand-in whose output calls fill the caller's buffers - and note how long a buffer the wrapper handed over"""
+
+    def __init__(self, nsamp, n):
+        FakeLib.__init__(self, 2)
+        self.nsamp, self.n, self.lens = nsamp, n, []
+
+    def engineexport_get_nsamples(self):
+        return self.nsamp
+
+    def engineexport_get_trajectory(self, buf):
+        self.lens.append(len(buf))
+        for i in range(min(len(buf), self.nsamp * self.n)):
+            buf[i] = 10.0 + i
+        return 0
+
+    def engineexport_get_tsample(self, buf):
+        for i in range(min(len(buf), self.nsamp)):
+            buf[i] = 0.5 * i
+        return 0
+
+
+def output_is_a_snapshot(edit, graph):
+    """The output can be fetched repeatedly with the same result - also when the CALLER goes on using its script object after
+    set-up (changes its units system, its sample times, its seed, replaces its system by a smaller / larger one): the engine
+    object answers for the simulation it was set up with. Every fetch hands the native engine a buffer of exactly
+    n_samples x (state size of the system that was set up) doubles (a shorter one would be overrun by the engine)."""
+    sc = RDScript(mk_system(0, graph, 0), [0, 1.0, 2.0], time_step=0.5)
+    n0 = sc.system.state_size()
+    lib = OutFake(3, n0)
+    e = LibRDEngine(lib, option="euler")
+    e.setup(sc)
+    e.iterate()
+    a = e.get_output()
+    if edit == 0:
+        sc.units_system = UnitsSystem("mm", "ms", "mol")
+    elif edit == 1:
+        sc.t_sample = [0, 5.0]
+    elif edit == 2:
+        sc.rng_seed = 987
+    elif edit == 3:
+        small = RDSystem(RDNetwork(species=[Species("A")], reactions=[]), RDGridSpace(w=1, h=1, d=1))
+        sc.system = small
+    else:
+        sc.system = mk_system(1, 1 - graph, 0)
+    b = e.get_output()
+    if any(l != 3 * n0 for l in lib.lens):
+        return False
+    same = [float(v) for v in a.data.value] == [float(v) for v in b.data.value] and str(a.data.units) == str(b.data.units)
+    same = same and [float(v) for v in a.t.value] == [float(v) for v in b.t.value] and str(a.t.units) == str(b.t.units)
+    same = same and a.system.state_size() == b.system.state_size() == n0 and a.script.rng_seed == b.script.rng_seed
+    same = same and [float(v) for v in a.script.t_sample.value] == [float(v) for v in b.script.t_sample.value]
+    return same
+
+
 def dropping_an_object_is_silent(o0, o1, o2, o3):
     """Engine objects used strictly one after the other on one library: the native simulation is released by finalize() and by
     nothing else. Reclaiming an engine object (last reference dropped, garbage collection) issues NO native call - otherwise it
@@ -146,6 +201,19 @@ def h_drop_is_silent(o0: int, o1: int, o2: int, o3: int) -> bool:
     """
     return dropping_an_object_is_silent(o0, o1, o2, o3)
 '''
+SNAP_COND = '''
+
+def h_output_snapshot(edit: int, graph: int) -> bool:
+    """
+    pre: 0 <= edit <= 4 and 0 <= graph <= 1
+    post: _
+    """
+    return output_is_a_snapshot(edit, graph)
+'''
+SNAP = {"fn": "h_output_snapshot", "what": "the output can be fetched repeatedly with the same result also when the caller goes on using its script object after set-up (units system, sample times, seed changed; system replaced by a smaller / "
+        "another one): the engine object answers for the simulation it was set up with, and every fetch hands the native engine a buffer of exactly n_samples x (state size at set-up) doubles",
+        "sig": "wrapper-output-not-a-snapshot", "structure": "LibRDEngine", "viol": "the engine object reads the caller's LIVE script when the output is fetched: a second fetch differs from the first, and after the caller's system "
+        "was replaced by a smaller one the native engine writes past the end of the buffer it is handed"}
 DROP = {"fn": "h_drop_is_silent", "what": "the native simulation is released by finalize() and by nothing else: reclaiming an engine object (reference dropped, garbage collection) issues no native call, so it cannot release the "
         "simulation of the object in use (engine objects used strictly one after the other on one library; all sequences of 4 operations over {iterate, finalize, replace by a new set-up object, drop old objects and collect})",
         "sig": "wrapper-releases-on-drop", "structure": "LibRDEngine", "viol": "an engine object releases the process-wide native simulation when it is reclaimed: the simulation of the engine in use is freed under it (use after free at its next call)"}
@@ -183,7 +251,7 @@ def h_step_count_units(u: int, g: int, opt: int, tu: int) -> bool:
     from harness.c09lib import step_count_in_units
     return step_count_in_units(u, g, opt, tu)
 '''
-    text += DROP_COND
+    text += DROP_COND + SNAP_COND
     mod = pysym.write_module("hgen_C10", text)
     pysym.run_auto(rec, mod, [{"fn": "h_is_complete", "what": "the completion status reported by an engine object always refers to its current set-up (every sequence of 4 wrapper calls, stand-in library finishing after 1..3 iterations)",
                                "sig": "c10-is-complete-stale", "structure": "LibRDEngine", "viol": "is_complete() reports the status of a previous set-up"},
@@ -191,7 +259,7 @@ def h_step_count_units(u: int, g: int, opt: int, tu: int) -> bool:
                                "sig": "c10-setup-not-clean", "structure": "LibRDEngine", "viol": "a set-up writes into the caller's script: a later set-up of the same script (same or other engine object) is not the simulation the script describes"},
                               {"fn": "h_step_count_units", "what": "a fixed-step run completes after ceil(t_max/dt) steps of the MODEL: the ratio t_max / time_step handed to the native engine equals the physical ratio, for t_max / time_step / sampling interval written with their own units (ms, min, h, s) under any of the 11 script systems, grid and graph, 3 engine kinds",
                                "sig": "c10-step-count-units", "structure": "LibRDEngine", "viol": "the number of steps to completion depends on the units in which t_max / the time step are written"},
-                              dict(DROP, sig="c10-" + DROP["sig"])])
+                              dict(DROP, sig="c10-" + DROP["sig"]), dict(SNAP, sig="c10-" + SNAP["sig"])])
     two_objects(rec)
 
 
@@ -235,5 +303,5 @@ print("SAME" if got == ref else "DIFFERENT", ref[:4], got[:4])
 
 def drop_leg(rec, prefix):
     """the same condition under another property's id (C11: no use after free through the wrapper)"""
-    mod = pysym.write_module("hgen_%s_drop" % prefix, HARNESS + DROP_COND)
-    pysym.run_auto(rec, mod, [dict(DROP, sig=prefix.lower() + "-" + DROP["sig"])])
+    mod = pysym.write_module("hgen_%s_drop" % prefix, HARNESS + DROP_COND + SNAP_COND)
+    pysym.run_auto(rec, mod, [dict(DROP, sig=prefix.lower() + "-" + DROP["sig"]), dict(SNAP, sig=prefix.lower() + "-" + SNAP["sig"])])
